@@ -48,6 +48,9 @@ def build_module(maxpages, memimport=False, minpages=1, shared=False):
     add("copy", ["i32", "i32", "i32"], [], [["local.get", 0], ["local.get", 1], ["local.get", 2], ["memory.copy"]])
     add("init0", ["i32", "i32", "i32"], [], [["local.get", 0], ["local.get", 1], ["local.get", 2], ["memory.init", 0]])
     add("init1", ["i32", "i32", "i32"], [], [["local.get", 0], ["local.get", 1], ["local.get", 2], ["memory.init", 1]])
+    add("drop0", [], [], [["data.drop", 0]])
+    add("drop1", [], [], [["data.drop", 1]])
+    add("fence", [], ["i32"], [["atomic.fence"], ["i32.const", b32(1)]])
     m = {"types": types, "funcs": funcs, "exports": exports,
          "memory": dict({"min": minpages, "max": maxpages}, **({"shared": True} if shared else {})),
          "data": [{"mode": "passive", "bytes": SEG0}, {"mode": "passive", "bytes": SEG1}] +
@@ -72,6 +75,7 @@ def history(rng, maxpages, length):
             "f32": [0x7FC00001, 0xFF800000, 0x80000000, 0x3F800000, 0x7F800001],
             "f64": [0x7FF8000000000001, 0xFFF0000000000000, 1 << 63, 0x3FF0000000000000, 0x7FF0000000000001]}
     hot = []   # recently written effective addresses, so loads hit interesting bytes
+    dropped = set()
 
     def pick_ea(w):
         size = pages * PAGE
@@ -122,13 +126,21 @@ def history(rng, maxpages, length):
                 d = s
             ops.append({"op": "call", "inst": 1, "export": "copy", "args": [arg("i32", d), arg("i32", s), arg("i32", n)]})
             hot.append(d)
-        else:
+        elif r < 0.985:
             seg, data = rng.choice([("init0", SEG0), ("init1", SEG1)])
-            s = rng.randint(0, len(data))
-            n = rng.randint(0, len(data) - s)
+            if seg in dropped:
+                s = n = 0                # a dropped segment is empty: only the empty copy is defined
+            else:
+                s = rng.randint(0, len(data))
+                n = rng.randint(0, len(data) - s)
             d = pick_ea(max(n, 1))
             ops.append({"op": "call", "inst": 1, "export": seg, "args": [arg("i32", d), arg("i32", s), arg("i32", n)]})
             hot.append(d)
+        else:
+            x = rng.choice(["drop0", "drop1", "fence"])
+            ops.append({"op": "call", "inst": 1, "export": x, "args": []})
+            if x != "fence":
+                dropped.add("init" + x[-1])
     return ops
 
 
